@@ -314,7 +314,16 @@ def canon(e: IR, env: Env) -> str:
             out += f' {op} {canon(x, env)}'
         return f'({out})'
     if e[0] == 'bool':
-        return '(' + f' {e[1]} '.join(canon(x, env) for x in e[2]) + ')'
+        flat: List[IR] = []
+
+        def fl(x: IR) -> None:
+            if x[0] == 'bool' and x[1] == e[1]:
+                for y in x[2]:
+                    fl(y)
+            else:
+                flat.append(x)
+        fl(e)
+        return '(' + f' {e[1]} '.join(canon(x, env) for x in flat) + ')'
     return atom(e, env)
 
 
